@@ -1,4 +1,4 @@
-use super::swift_utils::parse_swift_digits;
+use super::swift_utils::{parse_date_yymmdd, parse_swift_digits};
 use crate::errors::ParseError;
 use crate::traits::SwiftField;
 use chrono::{Datelike, NaiveDate};
@@ -57,28 +57,9 @@ impl SwiftField for Field11R {
         let date_str = parse_swift_digits(&remaining[..6], "Field 11R date")?;
         remaining = &remaining[6..];
 
-        // Parse date
-        let year = 2000
-            + date_str[0..2]
-                .parse::<i32>()
-                .map_err(|_| ParseError::InvalidFormat {
-                    message: "Invalid year in Field 11R".to_string(),
-                })?;
-        let month = date_str[2..4]
-            .parse::<u32>()
-            .map_err(|_| ParseError::InvalidFormat {
-                message: "Invalid month in Field 11R".to_string(),
-            })?;
-        let day = date_str[4..6]
-            .parse::<u32>()
-            .map_err(|_| ParseError::InvalidFormat {
-                message: "Invalid day in Field 11R".to_string(),
-            })?;
-
-        let date =
-            NaiveDate::from_ymd_opt(year, month, day).ok_or_else(|| ParseError::InvalidFormat {
-                message: format!("Invalid date in Field 11R: {}", date_str),
-            })?;
+        // Parse date with the same century window as every other YYMMDD date
+        // (00-49 -> 20yy, 50-99 -> 19yy)
+        let date = parse_date_yymmdd(&date_str)?;
 
         // Parse optional session number (4!n)
         let session_number =
@@ -202,28 +183,9 @@ impl SwiftField for Field11S {
         let date_str = parse_swift_digits(&remaining[..6], "Field 11S date")?;
         remaining = &remaining[6..];
 
-        // Parse date
-        let year = 2000
-            + date_str[0..2]
-                .parse::<i32>()
-                .map_err(|_| ParseError::InvalidFormat {
-                    message: "Invalid year in Field 11S".to_string(),
-                })?;
-        let month = date_str[2..4]
-            .parse::<u32>()
-            .map_err(|_| ParseError::InvalidFormat {
-                message: "Invalid month in Field 11S".to_string(),
-            })?;
-        let day = date_str[4..6]
-            .parse::<u32>()
-            .map_err(|_| ParseError::InvalidFormat {
-                message: "Invalid day in Field 11S".to_string(),
-            })?;
-
-        let date =
-            NaiveDate::from_ymd_opt(year, month, day).ok_or_else(|| ParseError::InvalidFormat {
-                message: format!("Invalid date in Field 11S: {}", date_str),
-            })?;
+        // Parse date with the same century window as every other YYMMDD date
+        // (00-49 -> 20yy, 50-99 -> 19yy)
+        let date = parse_date_yymmdd(&date_str)?;
 
         // Parse optional session number (4!n)
         let session_number =
@@ -404,28 +366,9 @@ impl SwiftField for Field11 {
         // Parse date (6!n for YYMMDD)
         let date_str = parse_swift_digits(&input[3..9], "Field 11 date")?;
 
-        // Parse date
-        let year = 2000
-            + date_str[0..2]
-                .parse::<i32>()
-                .map_err(|_| ParseError::InvalidFormat {
-                    message: "Invalid year in Field 11".to_string(),
-                })?;
-        let month = date_str[2..4]
-            .parse::<u32>()
-            .map_err(|_| ParseError::InvalidFormat {
-                message: "Invalid month in Field 11".to_string(),
-            })?;
-        let day = date_str[4..6]
-            .parse::<u32>()
-            .map_err(|_| ParseError::InvalidFormat {
-                message: "Invalid day in Field 11".to_string(),
-            })?;
-
-        let date =
-            NaiveDate::from_ymd_opt(year, month, day).ok_or_else(|| ParseError::InvalidFormat {
-                message: format!("Invalid date in Field 11: {}", date_str),
-            })?;
+        // Parse date with the same century window as every other YYMMDD date
+        // (00-49 -> 20yy, 50-99 -> 19yy)
+        let date = parse_date_yymmdd(&date_str)?;
 
         Ok(Field11 { message_type, date })
     }
